@@ -58,6 +58,16 @@ def run_case(c):
         r["out"] = 0
         R.append(r)
     rec("composition", sub(p, "composition", p["tracks"]), lambda f: midi_file_out.write_Composition(f, comp, bpm, rep))
+    # the same program with its rests held as empty NoteContainers instead of None (both mean silence of that length)
+    if any(e["rest"] for t in p["tracks"] for b in t["bars"] for e in b["entries"]):
+        from . import program as _pg
+        _pg.REST_AS_EMPTY_CONTAINER[0] = True
+        try:
+            comp2 = mk_composition(p)
+        finally:
+            _pg.REST_AS_EMPTY_CONTAINER[0] = False
+        if built_ok(p, comp2):
+            rec("composition", sub(p, "composition", p["tracks"]), lambda f: midi_file_out.write_Composition(f, comp2, bpm, rep))
     t0 = p["tracks"][0]
     rec("track", sub(p, "track", [t0]), lambda f: midi_file_out.write_Track(f, comp.tracks[0], bpm, rep))
     if c.get("subwriters", True):
